@@ -122,7 +122,7 @@ def run(ctx):
         if not x["expect"]["peer_ok"]:
             raise Infra("constructed peer value is not on the curve: %s" % x["case"]["note"])
     rows = tlc_table(ctx, cases, "kx") + hrows
-    bad = [dict(cases[5], bad="offcurve"), dict(cases[5], bad="infinity"), dict(cases[5], bad="xplusp"), dict(cases[5], bad="yminusp")]
+    bad = [dict(cases[5], bad="offcurve"), dict(cases[5], bad="infinity"), dict(cases[5], bad="xplusp"), dict(cases[5], bad="yminusp"), dict(cases[5], bad="p256point")]
     casef = os.path.join(ctx.work, "kx.ndjson")
     obsf = os.path.join(ctx.work, "kx.obs.ndjson")
     write_ndjson(casef, [{"case": x["case"]} for x in rows] + [{"case": c} for c in bad])
@@ -140,7 +140,7 @@ def run(ctx):
         elif c.get("bad"):
             for side in ("a", "b"):
                 if not g[side]["err"]:
-                    probs.append("party %s derived a key from a peer ephemeral value that is %s" % (side.upper(), {"offcurve": "not on the curve", "infinity": "the point at infinity", "xplusp": "a pair outside [0, p) (x + p, y)", "yminusp": "a pair outside [0, p) (x, y - p)"}[c["bad"]]))
+                    probs.append("party %s derived a key from a peer ephemeral value that is %s" % (side.upper(), {"offcurve": "not on the curve", "infinity": "the point at infinity", "xplusp": "a pair outside [0, p) (x + p, y)", "yminusp": "a pair outside [0, p) (x, y - p)", "p256point": "a point of the NIST P-256 curve that names that curve in its Curve field"}[c["bad"]]))
         elif c.get("kind") == "kxhalf":
             e, h = exp[json.dumps(c, sort_keys=True)], g["half"]
             if e["fail"]:
